@@ -275,7 +275,7 @@ impl Hist {
         let sp = spec(self.id);
         out.ob(if tape_mode { "mode:tape" } else { "mode:random" });
         out.ob(format!("profile:{}", g.profile));
-        let cfg = HistoryCfg { alphabet: sp.alphabet, max_len };
+        let cfg = HistoryCfg { alphabet: sp.alphabet, max_len, emit_mask: 0 };
         rng.clear_record();
         let o = match edit::run_history(&g, &mut rng, &cfg, 1) {
             Ok(o) => o,
